@@ -113,7 +113,8 @@ class Check:
             kind = rng.choice(['top', 'top', 'sub', 'builtin', 'subbuiltin'])
             if kind == 'top' and table['top']:
                 o = rng.choice(sorted(table['top'].values(), key=lambda o: o['name']))
-                out[o['name']] = P.cli_value(P.draw_value(rng, o, True))
+                # ':opt' is another spelling of the top-level project's option `opt`
+                out[(':' if rng.random() < 0.2 else '') + o['name']] = P.cli_value(P.draw_value(rng, o, True))
             elif kind == 'sub' and table.get('sub'):
                 cands = [o for o in sorted(table['sub'].values(), key=lambda o: o['name'])
                          if not o.get('yield') or (o['name'] in (table['top'] or {}) and rng.random() < 0.5)]
@@ -122,7 +123,9 @@ class Check:
                     out[f"{P.SUB}:{o['name']}"] = P.cli_value(P.draw_value(rng, o, True))
             elif kind == 'builtin':
                 k = rng.choice(['buildtype', 'warning_level', 'default_library', 'werror'])
-                out[k] = rng.choice(OR.BUILTIN_CHOICES[k])
+                if k != 'buildtype' and rng.random() < 0.2:
+                    k = ':' + k          # the top-level project only: subprojects keep following the global value
+                out[k] = rng.choice(OR.BUILTIN_CHOICES[k.lstrip(':')])
             elif kind == 'subbuiltin' and table.get('sub') is not None:
                 k = rng.choice(['warning_level', 'default_library', 'werror'])
                 out[f'{P.SUB}:{k}'] = rng.choice(OR.BUILTIN_CHOICES[k])
@@ -419,6 +422,17 @@ class Check:
             if rec is not None and pred is not None or (rec is not None and failed_step):
                 want_rec = {k: v for k, v in m.cmdline.items()}
                 got_rec = {k: v for k, v in rec.items() if k != 'backend'}
+                def replayed(d: T.Dict[str, str]) -> T.Dict[str, str]:
+                    # what a replay of the record, top to bottom, amounts to: 'opt' and ':opt' are one project option
+                    # (the entry further down wins), for a built-in they are two settings (global / top-level project only)
+                    out_: T.Dict[str, str] = {}
+                    for k_, v_ in d.items():
+                        proj_, name_ = OR.split_key(k_)
+                        if proj_ == '' and name_ not in OR.BUILTIN_CHOICES:
+                            k_ = name_
+                        out_[k_] = v_
+                    return out_
+                got_rec, want_rec = replayed(got_rec), replayed(want_rec)
                 if got_rec != want_rec:
                     diff = {k: {'file': got_rec.get(k), 'model': want_rec.get(k)} for k in sorted(set(got_rec) | set(want_rec)) if got_rec.get(k) != want_rec.get(k)}
                     if failed_step:
